@@ -365,6 +365,7 @@ impl<'a> Interpreter<'a> {
                                     Ok(callable) => stack.push(CelStackValue::BoundCall {
                                         callable,
                                         value: obj,
+                                        member: ident.clone(),
                                     }),
                                     Err(_) => {
                                         stack.push(
@@ -400,6 +401,7 @@ impl<'a> Interpreter<'a> {
                                         stack.push(CelStackValue::BoundCall {
                                             callable: self.callable_by_name(ident.as_str())?,
                                             value: obj,
+                                            member: ident.clone(),
                                         });
                                     } else if obj.is_err() {
                                         // a member of a failed value fails the same way,
@@ -435,7 +437,9 @@ impl<'a> Interpreter<'a> {
                 }
                 ByteCode::Call(n_args) => {
                     match stack.pop_noresolve()? {
-                        CelStackValue::BoundCall { callable, value } => {
+                        CelStackValue::BoundCall {
+                            callable, value, ..
+                        } => {
                             let mut args = Vec::new();
 
                             for _ in 0..*n_args {
